@@ -1,9 +1,9 @@
 ---------------------------- MODULE RenderCases ----------------------------
 (***************************************************************************)
 (* Bounded input spaces for Render.tla: enumerated by TLC, explored by the *)
-(* state machine (MC_Render and MC_Part configurations) and exported as JSON cases for the *)
-(* Go harness (MC_RenderGen), which concretises every case into a real     *)
-(* chart.                                                                  *)
+(* state machine (configurations MC_Render, MC_Part) and exported as JSON  *)
+(* cases (MC_RenderGen) for the Go harness, which concretises every case   *)
+(* into a real chart.                                                      *)
 (***************************************************************************)
 EXTENDS RenderBase, Json
 
@@ -11,12 +11,6 @@ Kinds4 == {"Secret", "Deployment", "Gadget", "Widget"}
 AbsCls == {"plain", "hook1", "unk"}     \* one representative per class; the harness draws the flavour
                                         \* (plain|annot, hook1|hookw|hook2, unk|mixed) per document by seed
 LitTypes(cls) == {[k |-> k, c |-> c, g |-> "LIT"] : k \in Kinds4, c \in cls}
-
-SeqsOf(S, lo, hi) == UNION {[1..m -> S] : m \in lo..hi}
-
-\* a document sequence cut into at most three consecutive non-empty files
-Segs(ds, a, b) == SelectSeq(<<SubSeq(ds, 1, a), SubSeq(ds, a + 1, b), SubSeq(ds, b + 1, Len(ds))>>, LAMBDA s : s # <<>>)
-Splits(ds)     == UNION {{Segs(ds, a, b) : b \in a..Len(ds)} : a \in 1..Len(ds)}
 
 ChartsSeq(S) == SelectSeq(<<"p", "s1", "s2">>, LAMBDA c : c \in S)
 SubsSeq(S)   == SelectSeq(<<"s1", "s2">>, LAMBDA c : c \in S)
